@@ -285,6 +285,10 @@ def run(p: Program, rep: Report, tier: str) -> None:
                         bs = ast.unparse(ast.Module(body=n.body, type_ignores=[]))
                         if f"{qname}.get" in bs:
                             drains.append(n)
+                    # the same drain written EAFP-style: `try: while True: q.get_nowait()  except <Empty>: pass`
+                    if isinstance(n, ast.Try) and any("Empty" in ast.unparse(h.type) for h in n.handlers if h.type is not None) and len(n.body) == 1 and isinstance(n.body[0], ast.While) \
+                            and isinstance(n.body[0].test, ast.Constant) and n.body[0].test.value is True and f"{qname}.get_nowait(" in ast.unparse(n.body[0]):
+                        drains.append(n)
             if drains and first_settle is not None and min(d.lineno for d in drains) < first_settle:
                 rep.ok("R6.3", f"{side}: the consumer empties the queue before it cancels/awaits the relay, so the relay's final {qname}.put(None) has room")
             else:
